@@ -17,6 +17,7 @@ Shuffle outcomes of the real code are recorded (np.random.shuffle is tapped from
 either seeded or scripted) and handed to the model, whose theorems quantify over all of them.
 """
 import contextlib
+import random as _random
 import signal
 import warnings
 import copy
@@ -48,7 +49,10 @@ THEOREMS = [P + n for n in (
     'coded_entry_points_agree', 'of_k_group_sizes', 'random_axis_coded', 'random_coded_eq',
     'random_default_sizes', 'kfold_both_indexed', 'sets_k_fold_indexed_once',
     'crossval_pairs_by_index', 'cv_noise_ceiling_pairs', 'crossval_on_k_fold',
-    'internal_cv_pidx_multiset', 'bootcv_guard_no_skip')]
+    'internal_cv_pidx_multiset', 'bootcv_guard_no_skip',
+    # round 4: sessions (state that survives a call)
+    'input_writes_zero', 'call_leaves_content_unchanged', 'session_calls_independent', 'session_calls_only',
+    'session_length', 'inplace_write_changes_later_call', 'session_call_after_any_history')]
 RULE = ('one PRNG; sets: every generator (8) x 2-9 RDMs x 3-10 conditions, grouping descriptors '
         'with repeated values (int or string labels) or the index descriptor, optionally with '
         'repeated index values (bootstrap copies), k = 1..n plus defaults and the rejected values '
@@ -64,7 +68,16 @@ RULE = ('one PRNG; sets: every generator (8) x 2-9 RDMs x 3-10 conditions, group
         'source-derived leaves (three lists, skip test, pairing); direct crossval calls vary the glue (ceil_set '
         'passed / omitted, pattern_descriptor passed / defaulted, fitter single / list / model default, 2-3 '
         'models); what cv_noise_ceiling pools and compares is recorded pair by pair; every bootstrap sample of '
-        'bootstrap_crossval is traced against the guard; groups-of-k with 11-14 groups; fit_regress_nn without skip')
+        'bootstrap_crossval is traced against the guard; groups-of-k with 11-14 groups; fit_regress_nn without skip; '
+        'round 4: reuse sessions - ONE RDMs object (descriptors as lists or ndarrays, optionally a bootstrap-'
+        'resampled stack) on which 2-4 generators are called in succession (sets_random with n_cv >= 2, every '
+        'k-fold / groups-of-k / leave-one-out generator, the same generator twice), crossval run once or twice '
+        'on the sets of an earlier call, and in-place edits by the user in between (a grouping descriptor '
+        're-assigned or overwritten element by element, the dissimilarities overwritten); every call is judged '
+        'on its own against the stand-alone call on the content the edits so far produce, all earlier results '
+        'are re-read after every later step, the object is compared bit for bit with a pristine copy after every '
+        'call; a quarter of the single-call sets cases hold their descriptors as ndarrays; a session is '
+        'non-trivial when at least two generator calls split the data or are rejected')
 BRANCHES = ['gen:k_fold', 'gen:k_fold_rdm', 'gen:k_fold_pattern', 'gen:of_k_rdm', 'gen:of_k_pattern',
             'gen:random', 'gen:loo_rdm', 'gen:loo_pattern', 'random:true', 'random:false',
             'grouped:rdm', 'grouped:pattern', 'copies:rdm', 'copies:pattern', 'labels:str',
@@ -81,7 +94,16 @@ BRANCHES = ['gen:k_fold', 'gen:k_fold_rdm', 'gen:k_fold_pattern', 'gen:of_k_rdm'
             # round 3 (worker): glue around crossval, guard of bootstrap_crossval, defaults of sets_random
             'cv:omit_ceil', 'cv:pdesc_default', 'cv:fitter_list', 'cv:fitter_default', 'cv:nc_pairs',
             'bootcv:guard_rejects', 'bootcv:guard_accepts', 'random:default_sizes', 'of_k:not_k_or_k1',
-            'fit:regress_nn_boot']
+            'fit:regress_nn_boot',
+            # round 4: reuse sessions on one object (state that survives a call)
+            'session', 'session:reuse', 'session:three_calls', 'session:random_multi_then_more',
+            'session:same_gen_twice', 'session:different_gens', 'session:desc_list', 'session:desc_ndarray',
+            'session:copies_rdm', 'session:copies_pattern', 'session:edit_relabel_rdm',
+            'session:edit_relabel_pat', 'session:edit_rewrite', 'session:edit_elementwise',
+            'session:crossval', 'session:crossval_twice_same_sets', 'session:gen_after_crossval',
+            'session:shuffled'] + ['session:gen_' + g_ for g_ in
+                                   ('k_fold', 'k_fold_rdm', 'k_fold_pattern', 'of_k_rdm', 'of_k_pattern',
+                                    'random', 'loo_rdm', 'loo_pattern')] + ['desc:ndarray', 'desc:list']
 ASSUMPTIONS = [
     'descriptor values are mapped to natural-number codes (non-negative ints as themselves, strings '
     'by rank) before they reach the model; np.unique orders ints numerically and strings by code point',
@@ -125,9 +147,14 @@ def _codes(values):
 
 
 def _code_of(cmap, v):
-    if isinstance(v, (int, np.integer)):
-        return cmap[int(v)]
-    return cmap[str(v)]
+    """code of a descriptor value; a value the object does not hold (possible only when the library hands
+    out something stale or foreign) gets a code outside the map, so that the model rejects it and the case
+    is judged by the oracle instead of crashing the harness"""
+    import zlib
+    k = int(v) if isinstance(v, (int, np.integer)) else str(v)
+    if k in cmap:
+        return cmap[k]
+    return 10 ** 6 + zlib.crc32(str(k).encode()) % 1000
 
 
 def _pairs(n):
@@ -138,6 +165,8 @@ def _base_matrix(case):
     """dissimilarities as exact python numbers (None = NaN): nR x nC(nC-1)/2"""
     nR, nC = case['rdm']['n'], case['pat']['n']
     pidx = case['pat'].get('index') or list(range(nC))
+    if case.get('matrix') is not None:      # explicit numbers (a session after the user rewrote the data)
+        return [list(row) for row in case['matrix']]
     if case.get('values') == 'random':
         rs = np.random.RandomState(case['dseed'])
         m = [[int(v) for v in rs.randint(1, 4096, size=nC * (nC - 1) // 2)] for _ in range(nR)]
@@ -164,7 +193,24 @@ def _build(case, matrix=None):
         rd['index'] = list(case['rdm']['index'])
     if case['pat'].get('index'):
         pd['index'] = list(case['pat']['index'])
+    if _desc_form(case) == 'ndarray':       # descriptors held as numpy arrays instead of lists (incl. index)
+        rd.setdefault('index', list(range(nR)))
+        pd.setdefault('index', list(range(nC)))
+        rd = {k: np.array(v) for k, v in rd.items()}
+        pd = {k: np.array(v) for k, v in pd.items()}
     return RDMs(d, rdm_descriptors=rd, pattern_descriptors=pd)
+
+
+def _desc_form(case):
+    """'list' or 'ndarray': stated by the case, else derived from its content (one in four of the
+    single-call cases hold their descriptors as arrays; no extra draw from the case generator's PRNG)"""
+    if case.get('desc_form'):
+        return case['desc_form']
+    if case.get('kind') != 'sets':
+        return 'list'
+    import zlib
+    key = json.dumps([case['rdm'].get('g'), case['pat'].get('g'), case.get('params')], sort_keys=True, default=str)
+    return 'ndarray' if zlib.crc32(key.encode()) % 4 == 0 else 'list'
 
 
 class ShuffleTap:
@@ -267,6 +313,10 @@ def _run_sets(case, matrix=None):
             out = _call_gen(case, rdms)
         except Exception as exc:  # noqa: BLE001 - the library's exceptions are data here
             return {'exc': _exc_name(exc)}, tap.log, None
+    return _decode_sets(out, case, pmap), tap.log, out
+
+
+def _decode_sets(out, case, pmap):
     train, test, ceil = out
     folds = []
     for i in range(len(train)):
@@ -276,7 +326,7 @@ def _run_sets(case, matrix=None):
             'ceil': None if ceil is None or i >= len(ceil)
             else _decode(ceil[i][0], ceil[i][1], case, pmap)})
     return {'folds': folds, 'n_train': len(train), 'n_test': len(test),
-            'n_ceil': None if ceil is None else len(ceil)}, tap.log, out
+            'n_ceil': None if ceil is None else len(ceil)}
 
 
 # ------------------------------------------------------------------ crossval experiment
@@ -689,6 +739,335 @@ def _crossval_experiment(case):
     return out, r0['log']
 
 
+# ------------------------------------------------------------------ round 4: reuse sessions
+#
+# kind 'session': ONE RDMs object (descriptors as lists or as ndarrays, optionally a bootstrap-resampled
+# stack) on which a list of steps is executed in one go:
+#   gen   a fold generator (own parameters, descriptor choice and shuffle spec)
+#   cv    evaluate.crossval on the sets an earlier gen step returned (the same sets may be used twice)
+#   edit  the user changes the object in place: a grouping descriptor re-assigned (whole list / array, or
+#         element by element), the dissimilarities overwritten
+# Every gen step is judged on its own: its result must be what the model returns for the stand-alone call
+# on the content the edits so far produce (pure function of the case's numbers), right after the call AND
+# when re-read after every later step; the object must hold that content bit for bit after every call.
+# Every cv step must return, bit for bit, what a stand-alone run (fresh object, fresh sets, fresh models)
+# returns.
+
+def _session_state(case, j):
+    """(rdm axis, pattern axis, matrix or None) of the object before step j — the edits of steps[:j]
+    applied to the case's original numbers; fresh containers on every call"""
+    rdm, pat = copy.deepcopy(case['rdm']), copy.deepcopy(case['pat'])
+    matrix = None
+    for st in case['steps'][:j]:
+        if st['op'] != 'edit':
+            continue
+        if st['what'] == 'relabel_rdm':
+            rdm['g'] = list(st['g'])
+        elif st['what'] == 'relabel_pat':
+            pat['g'] = list(st['g'])
+        elif st['what'] == 'rewrite':
+            cur = matrix if matrix is not None else _base_matrix(
+                {'rdm': rdm, 'pat': pat, 'values': case.get('values'), 'dseed': case.get('dseed'),
+                 'nan_copies': case.get('nan_copies')})
+            rs = np.random.RandomState(st['dseed'])
+            matrix = [[None if v is None else int(rs.randint(1, 4096)) / 64 for v in row] for row in cur]
+    return rdm, pat, matrix
+
+
+def _session_eff(case, j):
+    """the stand-alone single-call case ('sets') that step j of the session must behave like"""
+    st = case['steps'][j]
+    rdm, pat, matrix = _session_state(case, j)
+    rdm['by'], pat['by'] = st.get('rby', 'index'), st.get('pby', 'index')
+    eff = {'kind': 'sets', 'gen': st['gen'], 'params': copy.deepcopy(st['params']), 'rdm': rdm, 'pat': pat,
+           'desc_form': case.get('desc_form', 'list')}
+    if st.get('shuffle'):
+        eff['shuffle'] = copy.deepcopy(st['shuffle'])
+    if matrix is not None:
+        eff['matrix'] = matrix
+    for k in ('values', 'dseed', 'nan_copies'):
+        if case.get(k) is not None:
+            eff[k] = case[k]
+    return eff
+
+
+def _session_object(case, j):
+    """a pristine object holding the content before step j"""
+    rdm, pat, matrix = _session_state(case, j)
+    c = {'rdm': rdm, 'pat': pat, 'desc_form': case.get('desc_form', 'list'), 'kind': 'session'}
+    for k in ('values', 'dseed', 'nan_copies'):
+        if case.get(k) is not None:
+            c[k] = case[k]
+    return _build(c, matrix)
+
+
+def _apply_edit(obj, st, case, j):
+    """the user's in-place edit of step j on the session's object"""
+    if st['what'] in ('relabel_rdm', 'relabel_pat'):
+        d = obj.rdm_descriptors if st['what'] == 'relabel_rdm' else obj.pattern_descriptors
+        new = list(st['g'])
+        cur = d['g']
+        same_kind = all(isinstance(v, str) for v in new) == all(isinstance(v, (str, np.str_)) for v in cur)
+        if st.get('how') == 'inplace' and same_kind and not any(isinstance(v, str) for v in new):
+            for q, v in enumerate(new):         # element by element into the existing list / array
+                cur[q] = v
+        else:
+            d['g'] = np.array(new) if case.get('desc_form') == 'ndarray' else new
+    else:
+        _, _, matrix = _session_state(case, j + 1)
+        m = np.array([[np.nan if v is None else float(v) for v in row] for row in matrix], dtype=float)
+        obj.dissimilarities[...] = m.reshape(obj.dissimilarities.shape)
+
+
+def _plain(v):
+    return v.item() if hasattr(v, 'item') else v
+
+
+def _content_same(obj, ref):
+    """does `obj` hold exactly the content of the pristine object `ref` (values; nan = nan)"""
+    a, b = np.asarray(obj.dissimilarities), np.asarray(ref.dissimilarities)
+    if a.shape != b.shape or a.dtype != b.dtype or not np.array_equal(a, b, equal_nan=True):
+        return 'dissimilarities'
+    for name in ('rdm_descriptors', 'pattern_descriptors'):
+        da, db = getattr(obj, name), getattr(ref, name)
+        if sorted(da) != sorted(db):
+            return name + ' keys'
+        for k in db:
+            if [_plain(v) for v in da[k]] != [_plain(v) for v in db[k]]:
+                return f'{name}[{k!r}]'
+    return None
+
+
+SESSION_FITS = ('fixed', 'select', 'regress', 'regress_nn')
+
+
+def _session_models(case, st, on):
+    _, pat, _ = _session_state(case, on)
+    out = []
+    for ms in st['models']:
+        ms = dict(ms, n_cond=pat['n'], g=list(pat['g']))
+        out.append(_make_model(None, ms))
+    return out
+
+
+def _session_cv(case, st, obj, sets, on):
+    """evaluate.crossval on `sets` -> evaluations as hex strings, or {'exc': …}"""
+    from rsatoolbox.inference import evaluate as ev
+    eff = _session_eff(case, on)
+    _, pby = _axis(eff, 'pat')
+    built = _session_models(case, st, on)
+    models = [b[0] for b in built]
+    fits = []
+    for (m_, f_), ms in zip(built, st['models']):
+        if ms.get('ridge'):
+            fits.append(lambda mdl, data, f_=f_, r_=ms['ridge'], **kw: f_(mdl, data, ridge_weight=r_, **kw))
+        else:
+            fits.append(f_)
+    train, test, ceil = sets
+    with np.errstate(all='ignore'), warnings.catch_warnings():
+        warnings.simplefilter('ignore')
+        old = signal.signal(signal.SIGALRM, _alarm)
+        signal.setitimer(signal.ITIMER_REAL, FIT_SECONDS)
+        try:
+            res = ev.crossval(models, obj, train, test, ceil_set=ceil, method=st['method'], fitter=fits,
+                              pattern_descriptor=pby or 'index', calc_noise_ceil=False)
+        except _Timeout:
+            return {'exc': 'Timeout'}
+        except Exception as exc:  # noqa: BLE001
+            return {'exc': _exc_name(exc)}
+        finally:
+            signal.setitimer(signal.ITIMER_REAL, 0)
+            signal.signal(signal.SIGALRM, old)
+    return [[float(v).hex() for v in row] for row in np.asarray(res.evaluations, dtype=float)[0]]
+
+
+def _session_cv_standalone(case, st):
+    """the same cross-validation from scratch: pristine object, the generator called afresh with the same
+    shuffle spec, fresh models"""
+    on = st['on']
+    eff = _session_eff(case, on)
+    obj = _session_object(case, on)
+    with ShuffleTap(eff.get('shuffle')):
+        try:
+            sets = _call_gen(eff, obj)
+        except Exception as exc:  # noqa: BLE001
+            return {'exc': _exc_name(exc)}
+    return _session_cv(case, st, obj, sets, on)
+
+
+def _run_session(case, upto=None):
+    """-> (records per step, raw outputs per gen step {j: (out, eff, pmap)}).  Everything is built from the
+    case's numbers inside this call; nothing is shared with other cases or with the oracle's own run."""
+    steps = case['steps'] if upto is None else case['steps'][:upto]
+    obj = _session_object(case, 0)
+    recs, outs = [], {}
+    for j, st in enumerate(steps):
+        if st['op'] == 'edit':
+            _apply_edit(obj, st, case, j)
+            rec = {'op': 'edit'}
+        elif st['op'] == 'gen':
+            eff = _session_eff(case, j)
+            pmap = _codes(_axis(eff, 'pat')[0])
+            with ShuffleTap(eff.get('shuffle')) as tap:
+                try:
+                    out = _call_gen(eff, obj)
+                    res = _decode_sets(out, eff, pmap)
+                except Exception as exc:  # noqa: BLE001
+                    out, res = None, {'exc': _exc_name(exc)}
+            rec = {'op': 'gen', 'res': res, 'log': tap.log, 'reread_changed_by': None}
+            if out is not None:
+                outs[j] = (out, eff, pmap)
+        else:
+            on = st['on']
+            if on in outs:
+                ev_ = _session_cv(case, st, obj, outs[on][0], on)
+                ref = _session_cv_standalone(case, st)
+                rec = {'op': 'cv', 'evals': ev_, 'standalone': ref}
+            else:
+                rec = {'op': 'cv', 'evals': None, 'standalone': None}    # the generator call was rejected
+        bad = _content_same(obj, _session_object(case, j + 1))
+        rec['content_changed'] = bad
+        recs.append(rec)
+        # every result handed out so far is read again: later steps must not have touched it
+        for i, (out_i, eff_i, pmap_i) in outs.items():
+            if i < j and recs[i]['reread_changed_by'] is None:
+                try:
+                    now = _decode_sets(out_i, eff_i, pmap_i)
+                except Exception as exc:  # noqa: BLE001
+                    now = {'unreadable': _exc_name(exc)}
+                if now != recs[i]['res']:
+                    recs[i]['reread_changed_by'] = j
+                    recs[i]['reread'] = now
+    return recs, outs
+
+
+def _session_impl(case):
+    recs, _ = _run_session(case)
+    res = []
+    for r in recs:
+        if r['op'] == 'gen':
+            res.append({'op': 'gen', 'res': r['res'], 'content_unchanged': r['content_changed'] is None,
+                        'reread_unchanged': r['reread_changed_by'] is None})
+        elif r['op'] == 'cv':
+            res.append({'op': 'cv', 'ran': r['evals'] is not None,
+                        'same_as_standalone': r['evals'] == r['standalone'],
+                        'content_unchanged': r['content_changed'] is None})
+        else:
+            res.append({'op': 'edit'})
+    return {'steps': res}, [r.get('log', []) for r in recs]
+
+
+def _session_request(case, logs):
+    rdm, pat, _ = _session_state(case, 0)
+    n_r, n_c = rdm['n'], pat['n']
+
+    def codes(vals):
+        m = _codes(vals)
+        return [_code_of(m, v) for v in vals]
+    c0 = {'rdm': rdm, 'pat': pat}
+    for k in ('values', 'dseed', 'nan_copies'):
+        if case.get(k) is not None:
+            c0[k] = case[k]
+    state = {'rG': codes(rdm['g']), 'rIdx': [int(v) for v in (rdm.get('index') or range(n_r))],
+             'pG': codes(pat['g']), 'pIdx': [int(v) for v in (pat.get('index') or range(n_c))],
+             'dis': [[_num(v) for v in row] for row in _base_matrix(c0)]}
+    steps = []
+    for j, st in enumerate(case['steps']):
+        if st['op'] == 'gen':
+            eff = _session_eff(case, j)
+            req = _sets_request(eff, logs[j])
+            for k in ('op', 'rdesc', 'pdesc', 'dis'):
+                req.pop(k)
+            req['rby'] = 'g' if eff['rdm']['by'] == 'g' else 'index'
+            req['pby'] = 'g' if eff['pat']['by'] == 'g' else 'index'
+            steps.append({'call': req})
+        elif st['op'] == 'edit':
+            if st['what'] == 'relabel_rdm':
+                steps.append({'edit': {'rG': codes(st['g'])}})
+            elif st['what'] == 'relabel_pat':
+                steps.append({'edit': {'pG': codes(st['g'])}})
+            else:
+                _, _, matrix = _session_state(case, j + 1)
+                steps.append({'edit': {'dis': [[_num(v) for v in row] for row in matrix]}})
+        else:
+            steps.append({'noop': True})
+    return {'op': 'c05.session', 'state': state, 'steps': steps}
+
+
+def _session_model(case, answer):
+    if isinstance(answer, dict) and 'model_error' in answer:
+        return answer
+    out = []
+    gen_ok = {}
+    for j, (st, a) in enumerate(zip(case['steps'], answer)):
+        if st['op'] == 'gen':
+            r = a['res']
+            if isinstance(r, dict) and 'model_error' in r:
+                return r
+            if 'exc' in r:
+                res = {'exc': r['exc']}
+            else:
+                folds = [{k: _canon_part(f[k]) for k in ('train', 'test', 'ceil')} for f in r['folds']]
+                res = {'folds': folds, 'n_train': r['n_train'], 'n_test': r['n_test'], 'n_ceil': r['n_ceil']}
+            gen_ok[j] = 'exc' not in r
+            out.append({'op': 'gen', 'res': res, 'content_unchanged': bool(a['content_unchanged']),
+                        'reread_unchanged': True})
+        elif st['op'] == 'cv':
+            out.append({'op': 'cv', 'ran': bool(gen_ok.get(st['on'])), 'same_as_standalone': True,
+                        'content_unchanged': True})
+        else:
+            out.append({'op': 'edit'})
+    return {'steps': out}
+
+
+def _session_valid_cv(case, st):
+    """is the cv step inside the domain: an accepted generator call whose folds crossval can evaluate"""
+    return _valid_call(_session_eff(case, st['on']))
+
+
+def _oracle_session(case):
+    """every call of the session judged on its own against the case's numbers"""
+    recs, outs = _run_session(case)
+    for j, (st, r) in enumerate(zip(case['steps'], recs)):
+        feat = {'gen': st.get('gen', st['op']), 'default_pattern_descriptor': False, 'step': j,
+                'session': True}
+        if st['op'] == 'gen':
+            eff = _session_eff(case, j)
+            valid = _valid_call(eff)
+            if 'exc' in r['res']:
+                if valid:
+                    return _viol(f"session on one object: generator {st['gen']} raises on arguments inside its "
+                                 f"documented domain (step {j})", r['res']['exc'],
+                                 'a list of (train, test) sets', exc=r['res']['exc'], **feat)
+                continue
+            if not valid:
+                continue
+            bad = _check_sets(eff, outs[j][0])         # the objects as they are at the END of the session
+            if r['reread_changed_by'] is not None:
+                return _viol(f"session on one object: the sets handed out by {st['gen']} changed while a later step "
+                             f"ran (step {j} re-read after step {r['reread_changed_by']}: results of an earlier "
+                             f"call are not the caller's own)",
+                             'contents / pattern_idx differ from what the call returned',
+                             'unchanged', changed_by=r['reread_changed_by'], **feat)
+            if bad:
+                bad['what'] = 'session on one object: ' + bad['what'] + f' (step {j})'
+                bad['features'] = dict(bad.get('features', {}), **feat)
+                return bad
+        if st['op'] == 'cv' and r['evals'] is not None and _session_valid_cv(case, st):
+            if r['evals'] != r['standalone'] and not (isinstance(r['standalone'], dict)
+                                                      and isinstance(r['evals'], dict)):
+                return _viol(f"session on one object: crossval does not return what the same cross-validation "
+                             f"returns when run from scratch - fitted parameters / scores depend on what was "
+                             f"computed before (step {j} on the sets of step {st['on']})",
+                             r['evals'], r['standalone'], part='session_cv', **feat)
+        if st['op'] != 'edit' and r['content_changed']:
+            return _viol(f"session on one object: the RDMs object passed in was modified by the call "
+                         f"(step {j}, {st.get('gen', 'crossval')}: {r['content_changed']})", r['content_changed'],
+                         'input object unchanged',
+                         part='input_modified', **feat)
+    return None
+
+
 # ------------------------------------------------------------------ engine callbacks
 
 def _impl_cached(case):
@@ -701,9 +1080,14 @@ def _impl_cached(case):
             res, log, _ = _run_sets(case)
         elif kind == 'crossval':
             res, log = _crossval_experiment(case)
+        elif kind == 'session':
+            res, log = _session_impl(case)
         else:
             from rsatoolbox.inference.evaluate import _concat_sampling
             res, log = [int(v) for v in _concat_sampling(list(case['s1']), list(case['s2']))], []
+        if _key(case) != k:
+            # the case's own numbers were reached through a shared reference (harness defect, not the library's)
+            raise RuntimeError('case mutated while it was run: an input container is shared with the library')
         _CACHE[k] = (res, log)
     return _CACHE[k]
 
@@ -745,6 +1129,8 @@ def model_requests(case):
     if case['kind'] == 'concat':
         return [{'op': 'c05.concat', 's1': case['s1'], 's2': case['s2']}]
     res, log = _impl_cached(case)
+    if case['kind'] == 'session':
+        return [_session_request(case, log)]
     if isinstance(res, dict) and 'skip' in res:
         return []
     if case.get('bootcv'):
@@ -784,6 +1170,8 @@ def _canon_part(p):
 
 
 def model_result(case, answers):
+    if case['kind'] == 'session':
+        return _session_model(case, answers[0])
     if case['kind'] == 'crossval' and (not answers or case.get('bootcv')):
         for a in answers:
             if isinstance(a, dict) and 'model_error' in a:
@@ -864,6 +1252,8 @@ def features(case, impl):
     kind = case['kind']
     if kind == 'concat':
         return {'kind': kind, 'branches': ['concat']}
+    if kind == 'session':
+        return _session_features(case, impl)
     g, prm = case['gen'], case['params']
     br = ['gen:' + g, 'random:true' if prm.get('random') or g == 'random' else 'random:false']
     rvals, _ = _axis(case, 'rdm')
@@ -896,6 +1286,8 @@ def features(case, impl):
             br.append('uneven')
     if isinstance(impl, dict) and 'exc' in impl:
         br.append('exc:' + impl['exc'])
+    if kind == 'sets' and isinstance(impl, dict) and 'exc' not in impl:
+        br.append('desc:' + _desc_form(case))
     f = {'kind': kind, 'gen': g, 'n_rdm': case['rdm']['n'], 'n_cond': case['pat']['n'],
          'rdm_by': str(case['rdm']['by']), 'pattern_by': str(pby),
          'random': bool(prm.get('random')), 'branches': br,
@@ -964,6 +1356,11 @@ def features(case, impl):
 def nontrivial_key(case, impl):
     if case['kind'] == 'concat':
         return ['concat', case['s1'], case['s2']] if len(set(case['s1'])) < len(case['s1']) else None
+    if case['kind'] == 'session':
+        gens = [r for r in impl.get('steps', []) if r['op'] == 'gen']
+        if sum(1 for r in gens if 'exc' in r['res'] or r['res'].get('n_train', 0) >= 2) < 2:
+            return None
+        return ['session', case['rdm'], case['pat'], case.get('desc_form'), case['steps']]
     if isinstance(impl, dict) and 'skip' in impl:
         return None
     if isinstance(impl, dict) and 'exc' in impl:
@@ -1247,6 +1644,165 @@ def _gen_crossval_case(rng):
     return case
 
 
+def _session_features(case, impl):
+    br = ['session']
+    steps = case['steps']
+    res = impl.get('steps', []) if isinstance(impl, dict) else [{} for _ in steps]
+    gens = [(j, st) for j, st in enumerate(steps) if st['op'] == 'gen']
+    ok = {j: isinstance(res[j].get('res'), dict) and 'exc' not in res[j]['res'] for j, _ in gens if j < len(res)}
+    for j, st in gens:
+        if ok.get(j):
+            br.append('session:gen_' + st['gen'])
+    if sum(1 for j, _ in gens if ok.get(j)) >= 2:
+        br.append('session:reuse')                 # >= 2 successful generator calls on one object
+    if sum(1 for j, _ in gens if ok.get(j)) >= 3:
+        br.append('session:three_calls')
+    if any(st['gen'] == 'random' and st['params'].get('n_cv', 0) >= 2 and ok.get(j) and j < len(steps) - 1
+           for j, st in gens):
+        br.append('session:random_multi_then_more')   # folds of sets_random re-read after later calls
+    names = [st['gen'] for j, st in gens if ok.get(j)]
+    if len(set(names)) < len(names):
+        br.append('session:same_gen_twice')
+    if len(set(names)) >= 2:
+        br.append('session:different_gens')
+    br.append('session:desc_' + case.get('desc_form', 'list'))
+    for which, tag in (('rdm', 'session:copies_rdm'), ('pat', 'session:copies_pattern')):
+        idx = case[which].get('index')
+        if idx and len(set(idx)) < len(idx) and any(ok.values()):
+            br.append(tag)
+    for j, st in enumerate(steps):
+        if st['op'] == 'edit' and any(i > j and ok.get(i) for i, _ in gens):
+            br.append('session:edit_' + st['what'])
+            if st.get('how') == 'inplace':
+                br.append('session:edit_elementwise')
+    cvs = [(j, st) for j, st in enumerate(steps) if st['op'] == 'cv' and j < len(res) and res[j].get('ran')]
+    if cvs:
+        br.append('session:crossval')
+    ons = [st['on'] for _, st in cvs]
+    if len(set(ons)) < len(ons):
+        br.append('session:crossval_twice_same_sets')
+    if any(i > j and ok.get(i) for j, _ in cvs for i, _ in gens):
+        br.append('session:gen_after_crossval')
+    if any(st['params'].get('random') or st['gen'] == 'random' for _, st in gens):
+        br.append('session:shuffled')
+    return {'kind': 'session', 'gen': 'session', 'n_rdm': case['rdm']['n'], 'n_cond': case['pat']['n'],
+            'n_steps': len(steps), 'desc_form': case.get('desc_form', 'list'), 'branches': sorted(set(br)),
+            'default_pattern_descriptor': False}
+
+
+def _session_gen_step(rng, case, gen, have_cv, force=None):
+    """one generator step on the session's current axes (valid arguments, now and then a rejected k)"""
+    nrg = len(set(map(str, case['rdm']['g']))), len(set(map(str, case['rdm'].get('index') or range(case['rdm']['n']))))
+    npg = len(set(map(str, case['pat']['g']))), len(set(map(str, case['pat'].get('index') or range(case['pat']['n']))))
+    rby = (force or {}).get('rby') or rng.choice(['g', 'index'])
+    pby = (force or {}).get('pby') or rng.choice(['g', 'index'])
+    if gen in RDM_ONLY:
+        pby = 'index'
+    if gen == 'of_k_pattern' and pby == 'index' and rng.random() < 0.3:
+        pby = None
+    nr = nrg[0] if rby == 'g' else nrg[1]
+    npn = npg[0] if pby == 'g' else npg[1]
+    rnd = rng.random() < 0.6
+    prm = {'random': rnd}
+    sizes = []
+    bad = rng.random() < 0.06
+
+    def pick(n):
+        if bad:
+            return n + 1
+        return rng.choice([None, 2, 2, n, rng.randint(1, n)])
+    if gen == 'k_fold':
+        prm['k_rdm'], prm['k_pattern'] = pick(nr), pick(npn)
+        kr = prm['k_rdm'] if prm['k_rdm'] is not None else 5
+        sizes = [nr] + [npn] * max(kr, 1)
+    elif gen == 'k_fold_rdm':
+        prm['k_rdm'] = pick(nr)
+        sizes = [nr]
+    elif gen == 'k_fold_pattern':
+        prm['k'] = pick(npn)
+        sizes = [npn]
+    elif gen in ('of_k_rdm', 'of_k_pattern'):
+        n = nr if gen == 'of_k_rdm' else npn
+        prm['k'] = n if bad else rng.randint(1, max(1, n // 2))
+        sizes = [n]
+    elif gen == 'random':
+        prm = {'random': True, 'n_cv': rng.choice([2, 2, 3]),
+               'n_rdm': rng.choice([None, 0, rng.randint(1, max(1, nr - 1))]),
+               'n_pattern': rng.choice([None, rng.randint(1, max(1, npn - 1)), rng.randint(1, max(1, npn - 1))])}
+        sizes = [nr, npn] * prm['n_cv']
+    st = {'op': 'gen', 'gen': gen, 'params': prm, 'rby': rby, 'pby': pby}
+    if prm.get('random'):
+        st['shuffle'] = _shuffle_spec(rng, case, sizes)
+    return st
+
+
+def _gen_session_case(rng, with_cv=None):
+    with_cv = rng.random() < 0.4 if with_cv is None else with_cv
+    nR, nC = rng.randint(2, 7), (rng.randint(6, 9) if with_cv else rng.randint(3, 9))
+    case = {'kind': 'session', 'rdm': _gen_axis(rng, nR, allow_copies=not with_cv),
+            'pat': _gen_axis(rng, nC, allow_copies=not with_cv),
+            'desc_form': rng.choice(['list', 'ndarray'])}
+    if with_cv:
+        case['values'], case['dseed'] = 'random', rng.randrange(10 ** 6)
+    elif rng.random() < 0.3:
+        case['values'], case['dseed'] = 'random', rng.randrange(10 ** 6)
+    n_gen = rng.choice([2, 2, 3, 3, 4])
+    first = rng.choice(['random', 'random', 'k_fold', 'k_fold_pattern', 'k_fold_rdm', 'loo_rdm', 'loo_pattern',
+                        'of_k_pattern', 'of_k_rdm'])
+    gens = [first]
+    while len(gens) < n_gen:
+        gens.append(gens[0] if rng.random() < 0.3 else rng.choice(
+            ['random', 'k_fold', 'k_fold', 'k_fold_pattern', 'k_fold_rdm', 'loo_rdm', 'loo_pattern',
+             'of_k_pattern', 'of_k_rdm']))
+    steps = []
+    cur = {'rdm': copy.deepcopy(case['rdm']), 'pat': copy.deepcopy(case['pat'])}
+    gen_pos = []
+    # which edit (if any) precedes generator call q; the re-labelled descriptor is the one in use before and
+    # after the edit (a cache of its groups kept by the object or by the module goes stale exactly there)
+    edits = [None] + [rng.choice(['relabel_rdm', 'relabel_pat', 'rewrite']) if rng.random() < 0.35 else None
+                      for _ in gens[1:]]
+    for q, g in enumerate(gens):
+        force = {}
+        for e in (edits[q], edits[q + 1] if q + 1 < len(gens) else None):
+            if e == 'relabel_rdm':
+                force['rby'] = 'g'
+            elif e == 'relabel_pat':
+                force['pby'] = 'g'
+        if edits[q]:
+            what = edits[q]
+            if what == 'rewrite':
+                steps.append({'op': 'edit', 'what': 'rewrite', 'dseed': rng.randrange(10 ** 6)})
+            else:
+                ax = cur['rdm' if what == 'relabel_rdm' else 'pat']
+                n = ax['n']
+                strings = isinstance(ax['g'][0], str)
+                ng = rng.randint(max(2, n // 2), n) if n > 2 else n
+                new = _labels(rng, n, ng, strings)
+                ax['g'] = new
+                steps.append({'op': 'edit', 'what': what, 'g': new,
+                              'how': rng.choice(['assign', 'inplace'])})
+        st = _session_gen_step(rng, cur, g, with_cv, force)
+        gen_pos.append(len(steps))
+        steps.append(st)
+        if with_cv and (q == 0 or rng.random() < 0.3) and g not in ('loo_pattern', 'of_k_pattern'):
+            models = []
+            for _ in range(rng.choice([1, 2])):
+                kind = rng.choice(SESSION_FITS)
+                ms = {'type': 'weighted' if kind.startswith('regress') else kind, 'n_rdm': rng.randint(2, 3),
+                      'seed': rng.randrange(10 ** 6)}
+                if kind.startswith('regress'):
+                    ms['fitter'] = kind
+                    if kind == 'regress':
+                        ms['ridge'] = rng.choice([0.5, 1.0])
+                models.append(ms)
+            cv = {'op': 'cv', 'on': gen_pos[-1], 'models': models, 'method': rng.choice(['cosine', 'corr'])}
+            steps.append(cv)
+            if rng.random() < 0.7:
+                steps.append(copy.deepcopy(cv))        # the same sets cross-validated a second time
+    case['steps'] = steps
+    return case
+
+
 def _gen_concat_case(rng):
     n = rng.randint(2, 9)
     s1 = [rng.randrange(n) for _ in range(rng.randint(1, 12))]
@@ -1295,15 +1851,23 @@ def generate(rng, tier):
         yield _gen_crossval_case(rng)
     for _ in range(n_cc):
         yield _gen_concat_case(rng)
+    # round 4: reuse sessions (own PRNG stream derived from the run's, drawn last: the single-call cases of
+    # a seed are the ones they were before)
+    srng = _random.Random(rng.randrange(2 ** 32))
+    for q in range(90 if tier == 'quick' else 1500):
+        yield _gen_session_case(srng, with_cv=(q % 3 == 0))
 
 
 def search(rng, tier):
     """failing-input search: the same space, interleaved so that every generator and the
     cross-validation experiment come early"""
     n = 400 if tier == 'quick' else 4000
+    srng = _random.Random(rng.randrange(2 ** 32))
     for q in range(n):
         r = q % 4
-        if r == 3:
+        if q % 8 == 5:
+            yield _gen_session_case(srng, with_cv=(q % 24 == 5))
+        elif r == 3:
             yield _gen_crossval_case(rng)
         elif r == 2 and q % 16 == 2:
             yield _gen_concat_case(rng)
@@ -1354,10 +1918,9 @@ def _oracle_sets(case):
     feat = {'gen': g, 'default_pattern_descriptor': g == 'of_k_pattern' and case['pat']['by'] is None}
     valid = _valid_call(case)
     rdms = _build(case)
-    base = _base_matrix(case)
     with ShuffleTap(case.get('shuffle')):
         try:
-            train, test, ceil = _call_gen(case, rdms)
+            out = _call_gen(case, rdms)
         except Exception as exc:  # noqa: BLE001
             if valid:
                 return _viol(f'generator {g} raises on arguments inside its documented domain',
@@ -1365,6 +1928,16 @@ def _oracle_sets(case):
             return None
     if not valid:
         return None
+    return _check_sets(case, out)
+
+
+def _check_sets(case, out):
+    """the first sentence of C05 on a returned (train, test, ceil) triple, judged against the numbers of
+    `case` alone (the objects in `out` may come from a fresh call or from an earlier call of a session)"""
+    g, prm = case['gen'], case['params']
+    feat = {'gen': g, 'default_pattern_descriptor': g == 'of_k_pattern' and case['pat']['by'] is None}
+    base = _base_matrix(case)
+    train, test, ceil = out
     rvals, _ = _axis(case, 'rdm')
     pvals, _ = _axis(case, 'pat')
     nR, nC = len(rvals), len(pvals)
@@ -1527,6 +2100,8 @@ def _oracle_crossval(case):
 
 def oracle(case):
     kind = case['kind']
+    if kind == 'session':
+        return _oracle_session(case)
     if kind == 'sets':
         return _oracle_sets(case)
     if kind == 'crossval':
@@ -1544,10 +2119,104 @@ def oracle(case):
 
 # ------------------------------------------------------------------ shrinking
 
+def _drop_step(case, j):
+    """the session without step j (cv steps that used its sets go too; references re-numbered)"""
+    c = copy.deepcopy(case)
+    keep = [q for q, st in enumerate(c['steps'])
+            if q != j and not (st['op'] == 'cv' and st['on'] == j)]
+    renum = {q: i for i, q in enumerate(keep)}
+    steps = []
+    for q in keep:
+        st = c['steps'][q]
+        if st['op'] == 'cv':
+            st['on'] = renum[st['on']]
+        steps.append(st)
+    c['steps'] = steps
+    return c
+
+
+_FRESH_CONFIRMS = [0]
+
+
+def _fails_in_fresh_process(case):
+    """does the oracle fail on this case in a new interpreter (= what `--replay` will see)?  State kept at
+    module level by the library survives from case to case inside one run; a session shrunk in such a process
+    may owe its failure to an earlier case.  None = could not be determined."""
+    import os
+    import subprocess
+    import sys
+    here = os.path.dirname(os.path.dirname(os.path.abspath(__file__)))
+    repo = os.environ.get('RSA_REPO', '/repo')
+    code = ('import sys, json; sys.path.insert(0, %r); sys.path.insert(0, %r); import engines.C05 as E; '
+            'print("FAILS" if E.oracle(json.loads(sys.stdin.read())) else "HOLDS")'
+            % (here, os.path.join(repo, 'src')))
+    try:
+        p = subprocess.run([sys.executable, '-c', code], input=json.dumps(case).encode(),
+                           stdout=subprocess.PIPE, stderr=subprocess.DEVNULL, timeout=120)
+    except Exception:  # noqa: BLE001
+        return None
+    out = p.stdout.decode(errors='replace')
+    return True if 'FAILS' in out else False if 'HOLDS' in out else None
+
+
+def _shrink_session(case, still_fails):
+    """shortest failing call sequence: drop steps (latest first) while the oracle still fails, then try
+    the plainer forms of what is left (list descriptors, ordered assignment).  The first few shrunk
+    sessions of a run are confirmed in a fresh interpreter; a shrunk session that fails only in the
+    running process (library state left by earlier cases) is given up for the unshrunk one."""
+    if _FRESH_CONFIRMS[0] >= 6:
+        return case
+    cur = _shrink_session_steps(case, still_fails)
+    _FRESH_CONFIRMS[0] += 1
+    if cur != case and _fails_in_fresh_process(cur) is False:
+        # shrink again, every candidate judged in a fresh interpreter (slow; bounded)
+        budget = [12]
+
+        def fresh(c):
+            if budget[0] <= 0:
+                return False
+            budget[0] -= 1
+            return bool(_fails_in_fresh_process(c))
+        if fresh(case):
+            return _shrink_session_steps(case, fresh)
+        return dict(case, _note='fails inside a full run only: the library keeps state at module level that '
+                                'earlier cases of the run left behind; a replay of this case alone in a new '
+                                'interpreter passes - rerun ./check to reproduce')
+    return cur
+
+
+def _shrink_session_steps(case, still_fails):
+    cur = copy.deepcopy(case)
+    progress = True
+    while progress:
+        progress = False
+        for j in reversed(range(len(cur['steps']))):
+            if len(cur['steps']) <= 1:
+                break
+            c = _drop_step(cur, j)
+            if c['steps'] and still_fails(c):
+                cur, progress = c, True
+                break
+    if cur.get('desc_form') == 'ndarray':
+        c = dict(copy.deepcopy(cur), desc_form='list')
+        if still_fails(c):
+            cur = c
+    for j, st in enumerate(cur['steps']):
+        if st['op'] == 'gen' and st['gen'] != 'random' and st['params'].get('random'):
+            c = copy.deepcopy(cur)
+            c['steps'][j]['params']['random'] = False
+            c['steps'][j].pop('shuffle', None)
+            if still_fails(c):
+                cur = c
+    return cur
+
+
 def shrink(case, still_fails):
     """drop RDMs / conditions from the end, then simplify parameters, while the oracle still fails"""
     if case['kind'] == 'concat':
         return case
+    if case['kind'] == 'session':
+        return _shrink_session(case, still_fails)
     cur = copy.deepcopy(case)
 
     def cut(c, which, n):
